@@ -134,6 +134,40 @@ def ws(case, res):
                 S.settle()
                 S.end(c, "eof")
             S.settle()
+            # several handshakes at the same time, their header lines arriving interleaved: each connection is answered with the
+            # digest of its OWN key
+            for rnd in range(prm.get("interleaved", 6)):
+                group = []
+                for j in range(rng.choice([2, 2, 3, 4])):
+                    key = base64.b64encode(bytes(rng.randrange(256) for _ in range(16)))
+                    lines = [b"Host: h", b"Upgrade: websocket", b"Connection: Upgrade", b"Sec-WebSocket-Key: " + key, b"Sec-WebSocket-Version: 13", b"Sec-WebSocket-Protocol: jet"]
+                    if rng.random() < 0.6:
+                        rng.shuffle(lines)
+                    data = b"GET /api/jet/ HTTP/1.1\r\n" + b"\r\n".join(lines) + b"\r\n\r\n"
+                    c = S.connect("il%d_%d" % (rnd, j), "ws")
+                    c.hs_key, c.hs_sent = key, True
+                    # cut behind complete lines (and sometimes inside one)
+                    eols = [m.end() for m in re.finditer(b"\r\n", data)][:-1]
+                    cuts = sorted(set(rng.sample(eols, rng.randint(1, min(4, len(eols)))) + ([rng.randrange(1, len(data))] if rng.random() < 0.3 else [])))
+                    parts = [data[a:b] for a, b in zip([0] + cuts, cuts + [len(data)])]
+                    group.append([c, parts])
+                while any(parts for _c, parts in group):
+                    c, parts = rng.choice([g for g in group if g[1]])
+                    S.send_bytes(c, parts.pop(0))
+                    if rng.random() < 0.7:
+                        S.settle(**batch_policy(rng))
+                S.settle()
+                S.stats["interleaved_handshakes"] += len(group)
+                S.sig("interleaved-handshakes", len(group))
+                for c, _ in group:
+                    if c.dec.status != 101:
+                        S.v("ws/valid-upgrade-not-answered-101", "interleaved with %d others -> %r" % (len(group) - 1, c.dec.status))
+                        continue
+                    S.request(c, "info")
+                S.settle()
+                for c, _ in group:
+                    S.end(c, "eof")
+                S.settle()
         elif mode == "violations":
             vs = violations(rng, S.max_msg)
             part, nparts = prm.get("part", 0), prm.get("nparts", 1)
